@@ -43,7 +43,7 @@ func ruleLogShapes(c *eng.Ctx) {
 		notNew := eng.BoolEdges(fn, eng.Param("isNew"), false)
 		okRet := false
 		for _, r := range eng.Returns(fn) {
-			if len(r.Results) == 2 && eng.Global(cl+"ErrSegmentExists")(r.Results[1]) {
+			if len(eng.RetVals(r)) == 2 && eng.Global(cl+"ErrSegmentExists")(eng.RetVals(r)[1]) {
 				g1, _ := eng.GuardedBy(fn, r, isNew)
 				okRet = g1 && len(isNew) > 0
 			}
